@@ -561,6 +561,27 @@ func TestVerifC11(t *testing.T) {
 			bc = c11Case{Big: 3000, BigFile: true}
 		case cfg.Shard == 2 && cfg.Tier == "thorough":
 			bc = c11Case{Big: 200000, BigFile: true}
+		case cfg.Shard == 3:
+			// 1400 logged rows in one table (two internal levels), start-up recovery replays
+			// the whole log over the flushed tree: reopen, more rows, crash, more rows, reopen
+			bc = c11Case{Ops: []c11Op{{Op: "create", Table: 0}, {Op: "create", Table: 1}}}
+			for i := 0; i < 35; i++ {
+				bc.Ops = append(bc.Ops, c11Op{Op: "insert", Table: 0, N: 40, Size: 1})
+				if i%9 == 8 {
+					bc.Ops = append(bc.Ops, c11Op{Op: "flush"}, c11Op{Op: "insert", Table: 1, N: 3, Size: 10})
+				}
+			}
+			bc.Ops = append(bc.Ops, c11Op{Op: "reopen"}, c11Op{Op: "insert", Table: 0, N: 12, Size: 1}, c11Op{Op: "reopen"},
+				c11Op{Op: "delete", Table: 0, Pick: 700}, c11Op{Op: "insert", Table: 0, N: 40, Size: 1}, c11Op{Op: "crash"},
+				c11Op{Op: "insert", Table: 0, N: 9, Size: 1}, c11Op{Op: "reopen"}, c11Op{Op: "update", Table: 0, Pick: 1300, Size: 10})
+		}
+		if len(bc.Ops) > 0 {
+			if msg := c11Run(bc, st); msg != "" {
+				b, _ := json.Marshal(bc)
+				st.Fail("fixed large-tree history: "+msg, b)
+				vlib.Logf("FAIL C11 (large tree history): %s", msg)
+				return
+			}
 		}
 		if bc.Big > 0 {
 			msg = c11Big(st, bc.Big, bc.BigFile)
